@@ -515,16 +515,29 @@ func (s *Writer) loadSnapshot(epoch uint64) (*Snapshot, error) {
 		}
 	}
 
+	// on failure, release the segments of this snapshot that were loaded already
+	closeLoaded := func() {
+		for _, loaded := range snapshot.segment {
+			if loaded.segment != nil {
+				_ = loaded.segment.Close()
+			}
+		}
+	}
+
 	var running uint64
 	for _, segSnapshot := range snapshot.segment {
 		segPlugin, err := loadSegmentPlugin(s.config.supportedSegmentPlugins, segSnapshot.segmentType, segSnapshot.segmentVersion)
 		if err != nil {
+			closeLoaded()
 			return nil, fmt.Errorf("error loading required segment plugin: %v", err)
 		}
-		segSnapshot.segment, err = s.loadSegment(segSnapshot.id, segPlugin)
+		var seg *segmentWrapper
+		seg, err = s.loadSegment(segSnapshot.id, segPlugin)
 		if err != nil {
+			closeLoaded()
 			return nil, fmt.Errorf("error opening segment %d: %w", segSnapshot.id, err)
 		}
+		segSnapshot.segment = seg
 
 		snapshot.offsets = append(snapshot.offsets, running)
 		running += segSnapshot.segment.Count()
